@@ -110,6 +110,10 @@ def run(module, cfg, *, workers=16, timeout=600, env=None, simulate=None, depth=
       pass
     if m:
       r.generated, r.distinct = int(m.group(1)), int(m.group(2))
+    if not r.generated:
+      m = re.search(r"The number of states generated: (\d+)", r.out)
+      if m:
+        r.generated = r.distinct = int(m.group(1))
     m = re.search(r"The depth of the complete state graph search is (\d+)", r.out)
     if m:
       r.depth = int(m.group(1))
